@@ -177,7 +177,10 @@ class BasicContiguousVector<cntgs::Options<Option...>, Parameter...>
         auto it = make_iterator(position);
         const auto target_begin = it.data();
         const auto back_begin = data_end();
-        const auto back_end = emplace_back_impl(std::forward<Args>(args)...);
+        emplace_back_impl(std::forward<Args>(args)...);
+        // the distance to the next element, not the number of bytes stored: the elements of a
+        // vector without VaryingSize parameter lie one stride apart
+        const auto back_end = data_end();
         const auto byte_count = back_end - back_begin;
         make_room_for_last_element_at(it.index(), byte_count);
         std::memcpy(target_begin, back_end, byte_count);
